@@ -213,6 +213,12 @@ def cases(tier, seed, info):
     for j in range(0, len(cli), 10):
         out.append(dict(kind='cli', inputs=cli[j:j + 10]))
     info['cli_runs'] = 2 * len(cli)
+    # the same strings met TOGETHER: a directory holding a log and damaged copies of it (same entry id, one byte of
+    # the headers or of the first section changed, or cut short), through every mode that walks a directory
+    ndir = 16 if tier == 'quick' else 400
+    for k in range(ndir):
+        out.append(dict(kind='clidir', seed=seed * 911 + k, pel=k % len(pels), opt=k % 2 == 1))
+    info['directories_of_damaged_copies'] = ndir
     return out
 
 
@@ -276,9 +282,58 @@ def _cli_case(case):
     return recs
 
 
+def _clidir_case(case):
+    import shutil
+    rng = random.Random(case['seed'])
+    pels = _base_pels(random.Random(case['seed'] // 911 + 99), 8)
+    data = bytes(encode.encode(pels[case['pel'] % len(pels)]))
+    d = os.path.join(seams.scratch_dir('c05dir'), 'd')
+    shutil.rmtree(d, ignore_errors=True)
+    os.makedirs(d)
+    names = ['2023_%02d_base' % rng.randrange(50)]
+    seams.write_file(os.path.join(d, names[0]), data)
+    for j in range(rng.randrange(3, 9)):
+        b = bytearray(data)
+        r = rng.random()
+        if r < .7:
+            # one byte of the headers (times, creator, counts, ids, severity, flags ...) or of what follows them
+            off = rng.randrange(8, 72) if rng.random() < .8 else rng.randrange(72, len(b))
+            if off in range(44, 48) and rng.random() < .7:
+                off = rng.randrange(16, 24)                       # mostly keep the entry id: copies of ONE log
+            b[off] = rng.choice([0x00, 0xFF, b[off] ^ 0x80, b[off] ^ 0x10, rng.randrange(256)])
+        elif r < .85:
+            b = b[: rng.randrange(0, len(b))]
+        nm = '%s_%02d_copy%d' % (rng.choice(['2022', '2023', '2024']), rng.randrange(50), j)
+        names.append(nm)
+        seams.write_file(os.path.join(d, nm), bytes(b))
+    eid = '%08X' % encode.b2i(list(data[44:48]))
+    modes = [['-l'], ['-a'], ['-n'], ['-l', '-r'], ['-a', '-r', '-E'], ['-l', '-E'], ['--plid', '%08X' % encode.b2i(list(data[40:44]))],
+             ['--src', 'B'], ['--src', '1'], ['-i', eid], ['--bmc-id', str(encode.b2i(list(data[28:32])))], ['-n', '-E']]
+    recs = []
+    for m in modes:
+        res = seams.run_cli_proc(['-p', d] + m, 'opt' if case['opt'] else 'plain', timeout=60)
+        out, err = res['out'], res['err']
+        if out.strip() in ('', 'PEL not found'):
+            shape = 'empty' if out.strip() == '' else 'json'
+        else:
+            try:
+                json.loads(out)
+                shape = 'json'
+            except ValueError:
+                shape = 'other'
+        recs.append(dict(kind='cli', shape_ok=True, prefix=False, opt=case['opt'], input='dir:%s:%s' % (' '.join(m), data.hex()[:120]),
+                         exit=res['exit'] if -1000 < res['exit'] < 1000 else 999,
+                         traceback='Traceback (most recent call last)' in err or 'Traceback' in out,
+                         stderr_empty=err.strip() == '', stdout=shape))
+    shutil.rmtree(d, ignore_errors=True)
+    return recs
+
+
 def run_case(case):
     if case['kind'] == 'decode':
         return _decode_case(case)
+    if case['kind'] == 'clidir':
+        return _clidir_case(case)
     return _cli_case(case)
 
 
